@@ -41,6 +41,7 @@ var (
 		{`zap.Skip()`, zap.Skip()},    // strongly-typed field that encodes to nothing
 		{`"k1"`, "k1"},                // string keys (also usable as values)
 		{`"k2"`, "k2"},
+		{`""`, ""}, // the empty string: a legal string key (and a value)
 		{`42`, 42},   // non-string key / plain value
 		{`nil`, nil}, // nil key / nil value
 		{`e1`, e1},   // bare errors / error values
